@@ -1,0 +1,91 @@
+//go:build verif
+
+// Contracts for the gocv verifier (comment-only file; see /verif/DESIGN.md §4).
+package fastforward
+
+// chan struct{} (done, ctx.Done()): notification channels, only closed.
+//@ chanmsg struct{} (v): false
+// Worker results: a decoded reply or an error, never both nil; never closed.
+//@ chanmsg res (v) noclose: ((v.r != nil) != (v.err != nil)) && (v.r != nil ==> okRRs(v.r.Extra) && atMostOneOPT(v.r.Extra))
+
+//@ type Forward
+//@   immutable args, logger, us, tag2Upstream
+//@   invariant self.args != nil && self.logger != nil
+//@ type Args
+//@   immutable Concurrent
+
+// One upstream behind its metrics wrapper (abstract: whatever the server answers).
+//@ func (uw *upstreamWrapper) ExchangeContext
+//@   nobody
+//@   log upstreamExchange
+//@   modifies *
+//@   ensures (result_0 != nil) != (result_1 != nil)
+//@   ensures result_0 != nil ==> fresh(result_0)
+//@ func (uw *upstreamWrapper) name
+//@   nobody
+
+// copyPayload (C14): a private copy, byte for byte.
+//@ func copyPayload [C14]
+//@   log copyPayload
+//@   requires b != nil
+//@   ensures result != nil && fresh(result) && fresh((*result).ref) && len(*result) == len(*b)
+//@   ensures forall i int :: 0 <= i && i < len(*b) ==> (*result)[i] == (*b)[i]
+
+//@ spec func clamp13(c int) int = ite(c <= 0, 1, ite(c > 3, 3, c))
+//@ spec func goodRcode(r *dns.Msg) bool = r.Rcode == 0 || r.Rcode == 3
+
+// exchange (C14): exactly clamp(concurrent,1..3) workers are started, on the cyclically
+// consecutive upstreams us[(r+i) mod len(us)] from a start r in range, each with its own copy of the
+// packed query; the first result that is a NOERROR/NXDOMAIN reply is returned at once, any other
+// reply only if it is the last of the started workers' results; failures are skipped; an error is
+// returned only when the context ended or every started worker's result was consumed without an
+// acceptable reply; `done` is closed on every exit so no worker stays blocked on its hand-off.
+//@ func (f *Forward) exchange [C14]
+//@   log fwdExchange
+//@   requires f != nil && ctx != nil && qCtx != nil && qCtx.query != nil && len(qCtx.query.Question) >= 1
+//@   requires forall k int :: 0 <= k && k < len(us) ==> us[k] != nil
+//@   modifies *
+//@   ensures (result_0 != nil) != (result_1 != nil)
+//@   ensures result_0 != nil ==> okRRs(result_0.Extra) && atMostOneOPT(result_0.Extra)
+//@   ensures len(us) == 0 ==> result_1 != nil && calls(poolPackBuffer) == 0
+//@   ensures len(us) > 0 ==> calls(poolPackBuffer) == 1 && arg(poolPackBuffer, 0, 0) == old(qCtx.query)
+//@   ensures calls(poolPackBuffer) == 1 && ret(poolPackBuffer, 0, 1) == nil ==> calls(chanClose) == 1 && arg(chanClose, 0, 0) == done && calls(ReleaseBuf) == 1 && arg(ReleaseBuf, 0, 0) == ret(poolPackBuffer, 0, 0)
+//@   ensures calls(poolPackBuffer) == 1 && ret(poolPackBuffer, 0, 1) == nil ==> calls(intN) == 1 && arg(intN, 0, 0) == len(us)
+//@   ensures result_0 != nil ==> calls(chanRecv) >= 1 && lastarg(chanRecv, 0) == resChan && result_0 == lastret(chanRecv, 0).r && lastret(chanRecv, 0).err == nil && (i == concurrent - 1 || goodRcode(result_0))
+//@   ensures result_1 != nil && calls(poolPackBuffer) == 1 && ret(poolPackBuffer, 0, 1) == nil && calls(ctxCause) == 0 ==> i == concurrent
+//@   ensures calls(poolPackBuffer) == 1 && ret(poolPackBuffer, 0, 1) == nil ==> concurrent == clamp13(f.args.Concurrent)
+//@   loop 0:
+//@     invariant f != nil && qCtx != nil && 0 <= i && i <= concurrent && concurrent == clamp13(f.args.Concurrent) && len(us) > 0 && 0 <= r && r < len(us) && queryPayload != nil && resChan != nil && done != nil
+//@     invariant forall k int :: 0 <= k && k < len(us) ==> us[k] != nil
+//@     each iter_calls(copyPayload) == 1 && iter_arg(copyPayload, 0, 0) == queryPayload && iter_calls(worker) == 1
+//@     each u == us[(r + (i - 1)) % len(us)]
+//@     decreases concurrent - i
+//@   loop 1:
+//@     invariant f != nil && ctx != nil && 0 <= i && i <= concurrent && concurrent == clamp13(f.args.Concurrent) && resChan != nil
+//@     each iter_calls(chanRecv) == 1 && iter_arg(chanRecv, 0, 0) == resChan && (iter_ret(chanRecv, 0, 0).err != nil || ((i - 1) < concurrent - 1 && !goodRcode(iter_ret(chanRecv, 0, 0).r)))
+//@     decreases concurrent - i
+
+// worker (C14): sends exactly its private copy of the query to its upstream under a fixed timeout
+// taken from a fresh background context, releases the copy and the raw reply, reports a decoded
+// reply or an error (a reply that does not decode counts as an error), and never blocks once the
+// caller is gone (done closed).
+//@ func (f *Forward) exchange$1 [C14]
+//@   log worker
+//@   requires f != nil && u != nil && qc != nil && resChan != nil && done != nil
+//@   modifies *
+//@   ensures calls(upstreamExchange) == 1 && arg(upstreamExchange, 0, 0) == u && arg(upstreamExchange, 0, 2) == old(*qc) && arg(upstreamExchange, 0, 1) == ret(ctxWithTimeout, 0, 0)
+//@   ensures calls(ctxWithTimeout) == 1 && arg(ctxWithTimeout, 0, 1) == 5000000000 && callpos(ctxBackground, 0) < callpos(ctxWithTimeout, 0)
+//@   ensures calls(chanSend) <= 1 && (calls(chanSend) == 0 ==> calls(chanRecv) == 1 && arg(chanRecv, 0, 0) == done)
+//@   ensures calls(chanSend) == 1 ==> arg(chanSend, 0, 0) == resChan && (ret(upstreamExchange, 0, 1) != nil ==> arg(chanSend, 0, 1).r == nil && arg(chanSend, 0, 1).err != nil)
+//@   ensures calls(chanSend) == 1 && calls(msgUnpack) == 1 && ret(msgUnpack, 0) != nil ==> arg(chanSend, 0, 1).r == nil && arg(chanSend, 0, 1).err != nil
+//@   ensures ret(upstreamExchange, 0, 1) == nil ==> calls(msgUnpack) == 1 && calls(ReleaseBuf) == 2
+//@   ensures ret(upstreamExchange, 0, 1) != nil ==> calls(msgUnpack) == 0 && calls(ReleaseBuf) == 1
+
+// Exec (C14, C03): the reply chosen by exchange becomes the response; an error leaves it alone.
+//@ func (f *Forward) Exec [C14]
+//@   requires f != nil && ctx != nil && qCtx != nil && qCtx.query != nil && len(qCtx.query.Question) >= 1
+//@   requires forall k int :: 0 <= k && k < len(f.us) ==> f.us[k] != nil
+//@   modifies *
+//@   ensures calls(fwdExchange) == 1 && arg(fwdExchange, 0, 3) == f.us
+//@   ensures err == ret(fwdExchange, 0, 1) && (err == nil ==> calls(SetResponse) == 1 && arg(SetResponse, 0, 1) == ret(fwdExchange, 0, 0))
+//@   ensures err != nil ==> calls(SetResponse) == 0
